@@ -100,6 +100,21 @@ def _worker(case):
         signal.setitimer(signal.ITIMER_REAL, 0)
 
 
+def _model_line_of(mod, case, r):
+    """the driver command of a case after run_impl answered r (None = no model counterpart); never raises for a case on
+    which the implementation raised or timed out (see Run.process)"""
+    if 'model_line' in r:
+        return r['model_line']
+    if not hasattr(mod, 'model_line'):
+        return None
+    if r.get('obs') in ('exception', 'timeout'):
+        try:
+            return mod.model_line(case)
+        except Exception:
+            return None
+    return mod.model_line(case)
+
+
 def _chunks(it, n):
     buf = []
     for x in it:
@@ -215,7 +230,8 @@ class Run(object):
                     self.d_fail.append((case, df, r))
             if use_model and ctx.lean.driver is not None and (hasattr(mod, 'model_line') or 'model_line' in r):
                 # a harness may return the driver command from run_impl (when it is only known after the run)
-                ln = r['model_line'] if 'model_line' in r else mod.model_line(case)
+                # never a harness crash for a case on which the implementation raised / timed out (already a D failure)
+                ln = _model_line_of(mod, case, r)
                 if ln is not None:
                     lines.append(ln)
                     idx.append(i)
@@ -372,7 +388,7 @@ def do_replay(ctx, mod, path):
             for df in (r.get('d_fail') or []):
                 print('PROPERTY PREDICATE FAILS: [%s] %s' % (df['sig'], df['what']))
                 bad = True
-            ln = r['model_line'] if 'model_line' in r else (mod.model_line(c) if hasattr(mod, 'model_line') else None)
+            ln = _model_line_of(mod, c, r)
             if ctx.lean.driver is not None and ln is not None:
                 ans = ctx.lean.run_driver([ln])[0]
                 try:
@@ -394,7 +410,7 @@ def do_replay(ctx, mod, path):
     for df in (r.get('d_fail') or []):
         print('PROPERTY PREDICATE FAILS: [%s] %s' % (df['sig'], df['what']))
         bad = True
-    ln = r['model_line'] if 'model_line' in r else (mod.model_line(case) if hasattr(mod, 'model_line') else None)
+    ln = _model_line_of(mod, case, r)
     if ctx.lean.driver is not None and ln is not None:
         ans = ctx.lean.run_driver([ln])[0]
         mobs = mod.model_obs(case, sexp.loads(ans))
